@@ -68,12 +68,16 @@ func materialise(ents []entry) (root string, err error) {
 
 // realArg turns the protocol spelling (with /T for the temp root) into the argument to use
 // and sets the working directory for relative spellings
+// scanDirName is the name of the materialised directory under the temp root ("d" unless an op
+// renamed it)
+var scanDirName = "d"
+
 func realArg(root, arg string) string {
 	if strings.HasPrefix(arg, "/T") {
 		return root + arg[2:]
 	}
 	if arg == "." || arg == "./" {
-		os.Chdir(filepath.Join(root, "d"))
+		os.Chdir(filepath.Join(root, scanDirName))
 	} else {
 		os.Chdir(root)
 	}
@@ -148,6 +152,17 @@ func opDiskScan(f []string) string {
 			return r
 		}, err.Error())
 	}
+	// optional 7th field: the directory's own name (pad characters, digits, dots, spaces)
+	scanDirName = "d"
+	if len(f) > 6 {
+		if n := unhx(f[6]); n != "" && n != "d" {
+			if os.Rename(filepath.Join(root, "d"), filepath.Join(root, n)) != nil {
+				return "harness-error=rename"
+			}
+			scanDirName = n
+		}
+	}
+	defer func() { scanDirName = "d" }()
 	real := realArg(root, arg)
 	var o Obs
 	lf := "err"
@@ -390,7 +405,20 @@ func genDiskScan(r *Rand, n int, thorough bool, emit func(string)) {
 			arg = r.Pick([]string{"/T/nope", "/T/regfile", "/T/d/nope/x", "nope"})
 			dirok = "0"
 		}
-		emit(fmt.Sprintf("disk.scan %d %s %s %s %s", r.Intn(4), r.Pick([]string{"1", "4"}), hx(arg), dirok, entsString(ents)))
+		dn := ""
+		if dirok == "1" && r.Chance(1, 4) {
+			// the directory's own name carries pad characters, digits, dots or a space
+			name := r.Pick([]string{"d#x", "sh010.comp", "v1.2", "a@b", "1-5", "d d", "%04d", "x.0001"})
+			comps := strings.Split(arg, "/")
+			for j, c := range comps {
+				if c == "d" {
+					comps[j] = name
+				}
+			}
+			arg = strings.Join(comps, "/")
+			dn = " " + hx(name)
+		}
+		emit(fmt.Sprintf("disk.scan %d %s %s %s %s%s", r.Intn(4), r.Pick([]string{"1", "4"}), hx(arg), dirok, entsString(ents), dn))
 	}
 }
 
